@@ -1,5 +1,5 @@
 """C08 — typed values survive set/get and set/write/read/get."""
-import gens, floatoracle as fo
+import gens, vlib, floatoracle as fo
 from gens import enc
 from checklib import Scenario
 
@@ -7,7 +7,8 @@ RULE = ("per type: all boundary values, single-bit and power-of-ten neighbours a
         "patterns incl. NaN, infinities, subnormals, zeros), every case variant of the boolean words; each value is set with "
         "the typed setter, read with the matching getter, then the object is written, read back and read again; "
         "the float/double expectations come from an exact rational model of correctly rounded printf/strtod "
-        "(tools/floatoracle.py); distinct by value")
+        "(tools/floatoracle.py); distinct by value; thorough tier: EVERY float bit pattern, every int32 and every uint32 "
+        "through setter and getter in-process (harness/sweep.c, 3 x 2^32 round trips, coverage.exhaustive_32bit); quick tier: 57 slices")
 
 RANGES = {"int": (-2**31, 2**31 - 1), "int64": (-2**63, 2**63 - 1), "uint": (0, 2**32 - 1), "uint64": (0, 2**64 - 1)}
 
@@ -122,3 +123,43 @@ def gen(rng, tier):
 
 def nontrivial(s, mlines):
     return True
+
+
+# ---- exhaustive pass over the 32-bit types: every float bit pattern, every int32, every uint32 (thorough tier);
+# ---- the quick tier runs 48 random slices of 2^18 values each
+def extra_check(scens, rng, tier, cov):
+    import os, subprocess, glob, shutil, concurrent.futures
+    d = vlib.scratch_dir()
+    try:
+        exe = os.path.join(d, "sweep")
+        csrc = sorted(glob.glob(os.path.join(vlib.REPO, "lib", "*.c")))
+        cmd = ["gcc", "-O2", "-D_GNU_SOURCE", "-w", "-I" + os.path.join(vlib.REPO, "include"), "-I" + os.path.join(vlib.REPO, "lib"),
+               "-o", exe, os.path.join(vlib.VERIF, "harness", "sweep.c")] + csrc + ["-lm"]
+        p = subprocess.run(cmd, stdout=subprocess.PIPE, stderr=subprocess.STDOUT)
+        if p.returncode != 0: raise vlib.BuildError(p.stdout.decode("utf-8", "replace")[-2000:])
+        jobs = []
+        if tier == "thorough":
+            step = 1 << 26
+            for kd in ("float", "int", "uint"):
+                jobs += [(kd, lo, min(lo + step, 1 << 32)) for lo in range(0, 1 << 32, step)]
+        else:
+            for kd in ("float", "int", "uint"):
+                for _ in range(16):
+                    lo = rng.randrange(0, (1 << 32) - (1 << 18)); jobs.append((kd, lo, lo + (1 << 18)))
+                jobs += [(kd, 0, 1 << 12), (kd, (1 << 31) - (1 << 11), (1 << 31) + (1 << 11)), (kd, (1 << 32) - (1 << 12), 1 << 32)]
+        def run(j):
+            r = subprocess.run([exe, j[0], str(j[1]), str(j[2])], stdout=subprocess.PIPE, stderr=subprocess.PIPE, timeout=7200)
+            return j, r.returncode, r.stdout.decode().strip(), r.stderr.decode()[-300:]
+        total = {"float": 0, "int": 0, "uint": 0}
+        with concurrent.futures.ThreadPoolExecutor(max_workers=vlib.NPROC) as ex:
+            for j, rc, out, err in ex.map(run, jobs):
+                if rc != 0:
+                    det = "exhaustive 32-bit pass, %s in [%d, %d): %s %s" % (j[0], j[1], j[2], out[:200], err)
+                    body = "# property C08\n# %s\n# replay: gcc -O2 -D_GNU_SOURCE -I<repo>/include -I<repo>/lib harness/sweep.c <repo>/lib/*.c -lm && ./a.out %s %d %d\n" % (det, j[0], j[1], j[2])
+                    return body, det
+                total[j[0]] += j[2] - j[1]
+        cov["swept_32bit_values"] = total
+        cov["exhaustive_32bit"] = (tier == "thorough")
+    finally:
+        shutil.rmtree(d, ignore_errors=True)
+    return None
